@@ -323,6 +323,13 @@ pub fn merge(into: &mut Report, from: Report) {
         }
     }
     for d in from.property_failures {
+        // the per-worker reports each keep up to two cases of a SHARED key (a known finding): after the
+        // merge two are enough as well — otherwise the copies crowd every other failure out of the list
+        let key = d["key"].as_str().unwrap_or("").to_string();
+        if into.property_failures.iter().filter(|f| f["key"] == key.as_str()).count() >= 2 {
+            into.count(&format!("more-cases-of:{}", key));
+            continue;
+        }
         if into.property_failures.len() < 50 {
             into.property_failures.push(d);
         } else {
